@@ -302,17 +302,17 @@ impl Prop for C03 {
     fn stages(&self, tier: Tier) -> Vec<Stage<Case>> {
         let hist_len = 200;
         vec![
-            stage("explore", explore_case(tier.pick(14, 24)).prop_map(Case::Explore), tier.pick(64, 2000)).shrink(40),
+            stage("explore", explore_case(tier.pick(14, 24)).prop_map(Case::Explore), tier.pick(160, 2000)).shrink(40),
             stage(
                 "history-deep",
                 (explore_case(40), gen::history(hist_len)).prop_map(|(spec, ops)| Case::History { spec, ops }),
-                tier.pick(800, 20_000),
+                tier.pick(2400, 30_000),
             )
             .shrink(600),
             stage(
                 "history",
                 (gen::file_spec_light(tier), gen::history(hist_len)).prop_map(|(spec, ops)| Case::History { spec, ops }),
-                tier.pick(1200, 30_000),
+                tier.pick(3200, 40_000),
             )
             .shrink(600),
             stage(
@@ -322,7 +322,7 @@ impl Prop for C03 {
                     6 => (gen::file_spec_light(tier), gen::history(hist_len)).prop_map(|(spec, ops)| Case::HistoryV1 { spec, ops }),
                     3 => (explore_case(40), gen::history(hist_len)).prop_map(|(spec, ops)| Case::HistoryV1 { spec, ops }),
                 ],
-                tier.pick(400, 10_000),
+                tier.pick(1200, 15_000),
             )
             .shrink(100),
         ]
